@@ -205,3 +205,53 @@ impl Validate for AcceptJson {
         Ok(())
     }
 }
+
+/// paseto-json's RegisteredClaims as the payload, with invocation recording.  A claims VALUE is identified by its Debug rendering
+/// (all seven fields), so that a value altered on its way through encode / decode is a different identity.
+#[derive(Clone, Debug)]
+pub struct SpyReg(pub paseto_json::RegisteredClaims);
+
+pub fn reg_identity(c: &paseto_json::RegisteredClaims) -> Vec<u8> {
+    format!("{c:?}").into_bytes()
+}
+
+impl Payload for SpyReg {
+    const SUFFIX: &'static str = "";
+    fn encode(self, w: impl WriteBytes) -> Result<(), Box<dyn Error + Send + Sync>> {
+        log(Spy::ClaimsEncode { ok: true });
+        self.0.encode(w)
+    }
+    fn decode(p: &[u8]) -> Result<Self, Box<dyn Error + Send + Sync>> {
+        let r = <paseto_json::RegisteredClaims as Payload>::decode(p);
+        match &r {
+            Ok(c) => log(Spy::Decode { bytes: reg_identity(c), ok: true }),
+            Err(_) => log(Spy::Decode { bytes: p.to_vec(), ok: false }),
+        }
+        r.map(SpyReg)
+    }
+}
+
+pub struct AcceptReg;
+impl Validate for AcceptReg {
+    type Claims = SpyReg;
+    fn validate(&self, claims: &SpyReg) -> Result<(), PasetoError> {
+        log(Spy::Validate { claims: reg_identity(&claims.0), verdict: true });
+        Ok(())
+    }
+}
+
+/// paseto-json's Json<Value> as the footer, with invocation recording; identified by its serde_json bytes
+#[derive(Clone, Debug, PartialEq)]
+pub struct SpyJsonFooter(pub serde_json::Value);
+
+impl Footer for SpyJsonFooter {
+    fn encode(&self, w: impl WriteBytes) -> Result<(), Box<dyn Error + Send + Sync>> {
+        log(Spy::FooterEncode { ok: true });
+        Footer::encode(&paseto_json::Json(self.0.clone()), w)
+    }
+    fn decode(f: &[u8]) -> Result<Self, Box<dyn Error + Send + Sync>> {
+        let r = <paseto_json::Json<serde_json::Value> as Footer>::decode(f);
+        log(Spy::FooterDecode { bytes: f.to_vec(), ok: r.is_ok() });
+        r.map(|j| SpyJsonFooter(j.0))
+    }
+}
